@@ -37,7 +37,7 @@ RULE = ('one evaluation = one simulated run: a victim client performs a short se
 ASSUMPTIONS = ['the holder is a raw connection holding BEGIN IMMEDIATE (what a long transaction, check() or a slow writer in another process looks like)',
                'SQLite busy timeout is emulated event-driven in virtual time']
 PROBES = ('lock_taken', 'timeout_raised', 'failure_value', 'retry_waited', 'lock_before_begin_after_file', 'lockfree_lookup_under_lock',
-          'bulk_partial_timeout', 'replaced_under_lookup', 'open_with_transient_busy', 'open_failed_loudly', 'expired_during_wait')
+          'bulk_partial_timeout', 'replaced_under_lookup', 'open_with_transient_busy', 'open_failed_loudly', 'expired_during_wait', 'replaced_by_expired_item')
 TECHNIQUE = 'deterministic simulation with lock-contention injection: lock acquisition point enumerated over the seam events of the call, virtual-time busy timeout, before/after physical state comparison'
 LEVEL_TEXT = ('fault enumeration: calls are sampled by seed; for each call the instant at which another connection takes the write '
               'lock is enumerated over every seam event of the call (thorough tier) and the hold time is drawn on both sides of the '
@@ -141,6 +141,7 @@ def gen_case(seed, tier):
         # a lookup of a file-backed value whose file is replaced by another process (committed) at the lock point, which
         # then keeps the write lock: the lookup falls back to a second look under the lock, with the caller's retry choice
         cfg['replace'] = True
+        cfg['replace_expired'] = rng.random() < 0.4      # the value the other process stored has already expired again
         cfg['settings'] = settings = {'disk_min_file_size': 8}
         setup = [{'op': 'set', 'k': 'a', 'v': {'big': ['bytes', 40, 'old']}, 'retry': True}]
         op = {'op': rng.choice(('get', 'get', 'getitem')), 'k': 'a'}
@@ -236,7 +237,7 @@ def gen_target_op(rng, target, keys, big_n, bulk):
 REPLACED = b'R' * 40
 
 
-def _replace_file(directory):
+def _replace_file(directory, expired=False):
     """What another process's committed set() of a file-backed value leaves: the row names a new file, the old one is gone.
     Done with the real sqlite3 / os modules (no seam events): it is the environment, not the client under test."""
     rc = sqlite3.connect(os.path.join(directory, 'cache.db'), timeout=0, isolation_level=None)
@@ -249,6 +250,8 @@ def _replace_file(directory):
         with open(os.path.join(directory, rel), 'wb') as fh:
             fh.write(REPLACED)
         rc.execute('UPDATE Cache SET filename = ?, size = ? WHERE rowid = ?', (rel, len(REPLACED), row[0]))
+        if expired:
+            rc.execute('UPDATE Cache SET expire_time = 1.0 WHERE rowid = ?', (row[0],))      # long past on every clock
         os.remove(os.path.join(directory, row[1]))
         return True
     except sqlite3.OperationalError:
@@ -338,7 +341,7 @@ def _run(case):
             if con is None:
                 return
             if cfg.get('replace') and not state.get('replaced'):
-                state['replaced'] = _replace_file(dirs[di])
+                state['replaced'] = _replace_file(dirs[di], cfg.get('replace_expired'))
             try:
                 con.real.execute('BEGIN IMMEDIATE')
             except Exception:
@@ -463,6 +466,10 @@ def judge(case, base, run, violations, probes):
     if cfg.get('replace'):
         probes['replaced_under_lookup'] = 1
         new_fp = ('ok', fp(REPLACED))
+        if cfg.get('replace_expired'):
+            # the replacement is no live item: the second look finds nothing (C04)
+            new_fp = ('exc', 'KeyError') if name == 'getitem' else failure_value(op, name)
+            probes['replaced_by_expired_item'] = 1
         long_hold_ = cfg['hold'] == 'long'
         waits = bool(op.get('retry')) or name == 'getitem'
         ok = res in (bres, new_fp)
